@@ -16,7 +16,8 @@ Inductive aop :=
 | ODel (i : idx) | OInsert (i : option Z) (v : val) | OAppend (v : val) | OExtend (vs : vals) | OIadd (vs : vals)
 | OPop (i : option Z) (bad : bool) | ORemove (v : val) | OReverse | OClear | OIndex (v : val) | OCount (v : val)
 | OLen | OIter
-| OEq (other : list Z).          (* self == an array holding [other]: np.array_equal *)
+| OEq (other : list Z)           (* self == an array holding [other]: np.array_equal *)
+| OIndexR (v : val) (s : Z) (e : option Z).   (* index(v, start[, stop]): the Sequence mixin, bounds as in slice notation *)
 
 Inductive out := ONone | OVal (t : Z) | OList (l : list Z) | OInt (n : Z).
 
@@ -111,6 +112,13 @@ Fixpoint a_clear (fuel : nat) (l : list Z) : list Z :=
   | S f => match a_pop l (-1) with Ok (_, l') => a_clear f l' | Raise _ => l end
   end.
 
+(* index(v, start, stop): negative bounds count from the end, all bounds are clamped *)
+Definition l_index_range (l : list Z) (t : Z) (s : Z) (e : option Z) : res Z :=
+  let n := len l in
+  let s' := if s <? 0 then Z.max (s + n) 0 else Z.min s n in
+  let e' := match e with None => n | Some e => if e <? 0 then Z.max (e + n) 0 else Z.min e n end in
+  match l_index (firstn (Z.to_nat (e' - s')) (skipn (Z.to_nat s') l)) t with Ok i => Ok (s' + i) | Raise x => Raise x end.
+
 Definition step (l : list Z) (op : aop) : res out * list Z :=
   let keep (r : res (list Z)) := match r with Ok l' => (Ok ONone, l') | Raise e => (Raise e, l) end in
   match op with
@@ -142,6 +150,7 @@ Definition step (l : list Z) (op : aop) : res out * list Z :=
   | OLen => (Ok (OInt (len l)), l)
   | OIter => (Ok (OList l), l)
   | OEq other => (Ok (OInt (if list_eqb Z.eqb l other then 1 else 0)), l)
+  | OIndexR v s e => (match v with VBad => Raise ValueError | VElem t => do i <- l_index_range l t s e; Ok (OInt i) end, l)
   end.
 
 (* --- the spec: a Python list subjected to the same operation; wrong-typed elements / indices are
@@ -190,4 +199,5 @@ Definition spec_step (l : list Z) (op : aop) : res out * list Z :=
   | OLen => (Ok (OInt (len l)), l)
   | OIter => (Ok (OList l), l)
   | OEq other => (Ok (OInt (if list_eqb Z.eqb l other then 1 else 0)), l)
+  | OIndexR v s e => (match v with VBad => Raise ValueError | VElem t => do i <- l_index_range l t s e; Ok (OInt i) end, l)
   end.
